@@ -91,6 +91,96 @@ def sha16(s):
 
 
 # ---------------------------------------------------------------------------
+# independent statement of "a shipped structural validator rejects" used by the monitor
+# ---------------------------------------------------------------------------
+
+def json_shape(obj):
+    """container structure of a parsed JSON document: 0 = scalar, ("a", [items]) list, ("o", [values]) dict"""
+    if isinstance(obj, dict):
+        return ("o", [json_shape(v) for v in obj.values()])
+    if isinstance(obj, list):
+        return ("a", [json_shape(v) for v in obj])
+    return 0
+
+
+def json_parse(x):
+    """what json.loads (the trusted host library) does with x: ("tree", obj) or ("fails", exception class name) for
+    the two classes JSONValidator documents as "Invalid JSON" (ValueError incl. JSONDecodeError, RecursionError)"""
+    try:
+        return ("tree", json.loads(x))
+    except (ValueError, RecursionError) as e:
+        return ("fails", type(e).__name__)
+
+
+def nesting_depth(obj):
+    """nesting depth of a parsed document: scalars 0, a container 1 + the deepest member (iterative)"""
+    best, stack = 0, [(obj, 0)]
+    while stack:
+        o, d = stack.pop()
+        if isinstance(o, dict):
+            d += 1
+            stack.extend((v, d) for v in o.values())
+        elif isinstance(o, list):
+            d += 1
+            stack.extend((v, d) for v in o)
+        if d > best:
+            best = d
+    return best
+
+
+def spec_rejects(v, x):
+    """v: validator descriptor ["len", mn, mx] | ["char", allow_ctrl, allow_null] | ["json", max_depth, max_size].
+    -> None | reason why this shipped validator, as documented, does not accept the input x"""
+    if v[0] == "len":
+        if len(x) < v[1]:
+            return f"{len(x)} code points < min_length {v[1]}"
+        if len(x) > v[2]:
+            return f"{len(x)} code points > max_length {v[2]}"
+    elif v[0] == "char":
+        if not v[2] and "\x00" in x:
+            return "contains a null character"
+        if not v[1]:
+            for i, c in enumerate(x):
+                if ord(c) < 32 and c not in "\t\n\r":
+                    return f"control character U+{ord(c):04X} at {i}"
+    elif v[0] == "json":
+        if len(x) > v[2]:
+            return f"{len(x)} code points > max_size {v[2]}"
+        kind, val = json_parse(x)
+        if kind == "fails":
+            return f"not a JSON document (json.loads: {val})"
+        d = nesting_depth(val)
+        if d > v[1]:
+            return f"JSON nesting depth {d} > max_depth {v[1]}"
+    return None
+
+
+def vname(v):
+    return {"len": "LengthValidator(min_length=%s, max_length=%s)", "char": "CharacterSetValidator(allow_control_chars=%s, "
+            "allow_null=%s)", "json": "JSONValidator(max_depth=%s, max_size=%s)"}[v[0]] % (v[1], v[2])
+
+
+def rle_flat(keys):
+    """run-length encoding, flattened: key + [run length] for every maximal run (Run.v: rle)"""
+    out, cur, n = [], None, 0
+    for k in keys:
+        if cur is not None and k == cur:
+            n += 1
+        else:
+            if cur is not None:
+                out += cur + [n]
+            cur, n = k, 1
+    if cur is not None:
+        out += cur + [n]
+    return out
+
+
+def burst_content(op, k):
+    """the k-th input of a counted burst ["burst", pre, post, start, count]"""
+    return op[1] + str(op[3] + k) + op[2]
+
+
+# ---------------------------------------------------------------------------
 # strings from regexes
 # ---------------------------------------------------------------------------
 
@@ -238,9 +328,13 @@ class MemBook:
         self.adaptive = adaptive
         self.rate = rate
         self.epoch = 0                    # bumps whenever the rule set or the threshold changes
-        self.blocked_by_scan = []         # (content, epoch)
+        self.blocked_by_scan = {}         # content blocked by a scan -> epoch of the (first) block; never shrinks
+        self.blocked_now = []             # the contents blocked by a scan under the CURRENT rules and threshold
+        self.blocked_now_epoch = 0
         self.admitted = []                # times (s) of requests that passed the rate check
         self.tag = tag
+        self.decisions = 0                # filter calls judged so far
+        self.first_block = {}             # content -> number of the decision that blocked it by a scan
 
     def exported(self):
         return list(self.learned.values())
@@ -275,11 +369,21 @@ class MemBook:
         """st: the recorded filter step of this membrane -> None | Violation"""
         x = st["content"]
         t = self.tag
+        self.decisions += 1
         active = self.sigs + list(self.learned.values())
         hits = [(i, lvl) for (i, p, rx, lvl) in active if spec_matches(p, rx, x)]
-        names = {i: (("learned/imported " if p in self.learned and self.learned[p][0] == i else "") +
-                     ("regex " if rx else "substring ") + repr(p)) for (i, p, rx, lvl) in active}
-        replay = any(b == x for b, _ in self.blocked_by_scan)
+
+        class _Names:           # descriptions of the active signatures, built only when a violation is reported
+            def __getitem__(_self, j):
+                for (i, p, rx, lvl) in active:
+                    if i == j:
+                        return (("learned/imported " if p in self.learned and self.learned[p][0] == i else "") +
+                                ("regex " if rx else "substring ") + repr(p))
+                return "?"
+        names = _Names()
+        replay = x in self.blocked_by_scan
+        if self.blocked_now_epoch != self.epoch:
+            self.blocked_now, self.blocked_now_epoch = [], self.epoch
         if st["allowed"]:
             bad = [i for (i, lvl) in hits if lvl >= self.thr]
             if bad:
@@ -287,11 +391,14 @@ class MemBook:
                                  f"{t}filter allowed {x!r} although active signature(s) "
                                  f"{[(i, names[i]) for i in bad]} at/above threshold {self.thr} match")
             if replay:
-                return Violation("C10/replay-forgotten", f"{t}{x!r} was blocked by a scan earlier and is allowed now")
-            for b, e in self.blocked_by_scan:
-                if e == self.epoch and b.lower() == x.lower():
+                return Violation("C10/replay-forgotten",
+                                 f"{t}{x!r} was blocked by a scan earlier (decision #{self.first_block[x]} of this membrane; "
+                                 f"{len(self.blocked_by_scan)} distinct inputs blocked by scans so far, {self.decisions} decisions) "
+                                 f"and is allowed now")
+            for b in self.blocked_now:
+                if b.lower() == x.lower():
                     return Violation("C10/case-change-unblocks", f"{t}{b!r} was blocked but its case variant {x!r} is allowed")
-                if e == self.epoch and embeds(b, x):
+                if embeds(b, x):
                     return Violation("C10/embedding-unblocks", f"{t}{b!r} was blocked but {x!r}, which embeds it in text that "
                                                                f"glues no word character to it, is allowed")
         scanned = (st["limited"] is not True) and not replay
@@ -303,7 +410,9 @@ class MemBook:
                 return Violation("C10/level-not-max", f"{t}threat level {st['level']} is not the maximum over matched "
                                                       f"signatures {hits} for {x!r}")
             if not st["allowed"]:
-                self.blocked_by_scan.append((x, self.epoch))
+                self.blocked_by_scan[x] = self.epoch
+                self.first_block[x] = self.decisions
+                self.blocked_now.append(x)
         if st["limited"] is not True:
             self.admitted.append(st["t"] / TPS)
         return None
@@ -412,6 +521,19 @@ class C10(Check):
             "callbacks that also read get_statistics / get_audit_log / stats / get_inflammation_state re-entrantly, and 0..3 read-only "
             "accessor calls (get_statistics, get_audit_log, export_antibodies; get_inflammation_state, stats) are inserted between "
             "the operations; JSON documents ending in empty containers ([] {} [[]] ...) with JSONValidator max_depth 0..3 and 10. "
+            "LONG CAMPAIGNS: a history operation may be a counted burst [pre, post, start, count] = count filter calls on the "
+            "pairwise different inputs pre+str(start+k)+post, observed in counted form (statistics after the burst + run-length "
+            "encoding of (allowed, level, #matched) per call) and judged call by call by the monitor; scenario: rule learned/"
+            "imported, victim blocked, n further distinct inputs blocked (1-3 bursts, the victim or the first input replayed in "
+            "between, part of the campaign re-submitted), the rule relaxed (forget_threat / raised threshold / import of a weaker "
+            "antibody under the same text / both), then the victim, the first, the last and a fresh input again: n = 10400 once per "
+            "run INSIDE Coq as well (thorough: one per way of relaxing), n in 1..1025 around powers of two and ten in the random "
+            "stream (2%), n = 70000 (thorough also 150000) on the implementation under the monitor only (extra_checks). "
+            "JSON DOCUMENTS for JSONValidator (now transcribed, json.loads the recorded oracle): random documents of an exact "
+            "nesting depth at / below / beyond max_depth in 0..5 and 10, lists and objects, with awkward strings - ending in an "
+            "escaped backslash, escaped quotes, brackets and braces inside strings, \\uXXXX escapes - as values AND keys placed "
+            "before and after the deepest branch, varied separators / ensure_ascii; a systematic family per max_depth on every run "
+            "plus random members, and six over-deep recipes among the hostile inputs. "
             "non-trivial = at least one signature matched or a request was rate-limited/replay-blocked/"
             "rejected by a validator; distinct by case content")
     LEVEL_TEXT = ("Coq theorems, for all signature sets (substring and regex over an AST with literals, sets, categories, '.', sequence, "
@@ -425,7 +547,12 @@ class C10(Check):
                   "blocked in every later state; a learned/imported signature stays in the adaptive memory, with its level, through every "
                   "history that does not learn/import/forget exactly its pattern text (texts differing only in case are different "
                   "signatures), and while held it blocks / is reported for every input it matches; with a monotone clock every window shorter than 60 s holds at most rate_limit admitted "
-                  "requests; every filter call appends exactly its own result to an uncapped audit list; the regex matcher is proved "
+                  "requests; every filter call appends exactly its own result to an uncapped audit list; the replay memory has no "
+                  "capacity: after a history of any length it is the old memory followed by the hash of every scan-blocked decision, "
+                  "and any input blocked by a scan anywhere in a history is refused after every continuation; the three shipped "
+                  "validators accept exactly: length within bounds / no null, no control character / json.loads (an arbitrary oracle) "
+                  "returns a document nested no deeper than max_depth (the early return of _measure_depth is proved equivalent to the "
+                  "real depth) and no longer than max_size, and reject with a message otherwise; the regex matcher is proved "
                   "sound and complete w.r.t. an inductive matching relation (its Star fuel is never exhausted); check() returns unless "
                   "a validator raises. The shipped patterns are regenerated from the source through CPython's own regex parser on every "
                   "run (Gen_C10_ok), and model and code are compared on every generated history and per pattern.")
@@ -446,8 +573,16 @@ class C10(Check):
                "sha256(content)[:16] is an arbitrary function in the theorems and the identity in run_case; the harness checks it is "
                "injective on the inputs of every case",
                "time: integer ticks of 0.5 s (exact in binary64); the rate bound assumes a monotone clock",
-               "JSONValidator (json.loads) and harness stub validators are oracles whose verdicts are recorded per input; "
-               "LengthValidator and CharacterSetValidator are transcribed",
+               "json.loads is an oracle: what it returned (container structure of the document) or that it raised ValueError / "
+               "RecursionError is recorded per checked input and handed to the transcribed JSONValidator; the interpreter's recursion "
+               "limit inside _measure_depth is not modelled (in-Coq documents are at most 100 deep); harness stub validators are "
+               "oracles whose verdicts are recorded per input; LengthValidator and CharacterSetValidator are transcribed",
+               "the monitor's statement of 'a shipped validator rejects': LengthValidator - length outside [min_length, max_length]; "
+               "CharacterSetValidator - a null / a code point < 32 other than tab, LF, CR unless allowed; JSONValidator - longer than "
+               "max_size, or json.loads raises, or the nesting depth of the parsed document (scalars 0, a container 1 + its deepest "
+               "member) exceeds max_depth",
+               "counted bursts: decimal numerals of at most 40 digits (Model.v dec); campaigns of 70000+ inputs are run on the "
+               "implementation under the monitor only, the 10400 one also inside Coq",
                "console output (silent=False), the on_threat / on_inflammation callbacks (supplied as benign recording callbacks that "
                "return; raising callbacks are outside the property) and the read-only accessors are not part of the model: the harness "
                "exercises them in a share of the histories and strips them from the model's input, so any influence on a decision, "
@@ -696,7 +831,125 @@ class C10(Check):
             return self._keyclash_sys(rng, self.KEYCLASH_SYS[k % 2], pat, rx, mode)
         return self._keyclash_mem(rng, self.KEYCLASH[k % len(self.KEYCLASH)], pat, rx, mode)
 
+    # -- LONG campaigns: counted bursts of pairwise different inputs ------------------------------
+    # "keeps blocking an input it has blocked before even after rules are relaxed" quantifies over histories of any
+    # length: the victim is blocked, then n further DISTINCT inputs are blocked (a burst, optionally interrupted by a
+    # replay of the victim), then the rule is relaxed, then the victim (and the first / last input of the burst) is
+    # submitted again.  A burst is one operation ["burst", pre, post, start, count]: inputs pre + str(start+k) + post.
+    FLOOD_RELAX = ["forget", "thr", "import-weaker", "forget+thr"]
+    FLOOD_PATS = [("zq-marker", False), (r"\bzq\s*marker\b", True), ("Drop Table", False), (r"rm\s+-rf", True)]
+
+    def _flood_mem(self, rng, total, relax, lean=False, parts=1, pat=None):
+        """lean: few built-in signatures, no decoration (the 10k+ campaign that is also evaluated inside Coq)"""
+        nb = len(self._shipped()[0])
+        pat, rx = pat or rng.choice(self.FLOOD_PATS)
+        lvl = rng.choice([1, 2]) if "thr" in relax else rng.choice([2, 3])
+        thr = rng.randint(1, lvl)
+        g = {"id": 180, "pattern": pat, "regex": rx, "level": lvl}
+        case = {"kind": "mem", "scenario": "flood:" + relax, "builtin": sorted(rng.sample(range(nb), 2)) if lean else list(range(nb)),
+                "custom": [], "threshold": thr, "rate": None, "adaptive": True, "t0": T0_TICKS, "ops": []}
+        if lean:
+            case["silent"], case["cb"] = True, False
+        ops = case["ops"]
+        ops.append(rng.choice([["learn", g], ["import", [g]]]))
+        inst = lambda: self._instance(g, rng)
+        victim = embed(inst(), rng)[:MAX_COQ_LEN]
+        if rng.random() < 0.4:
+            ops.append(["filter", benign(rng, 2)])
+        ops.append(["filter", victim])
+        pre = rng.choice(["", "", "#", "id "])
+        post = " " + inst() + rng.choice(["", "", " please", "."])
+        start = rng.choice([0, 1, 1, 7, 1000])
+        sizes = [total // parts] * parts
+        sizes[-1] += total - sum(sizes)
+        at = start
+        for j, n in enumerate(sizes):
+            if j > 0:        # the victim (or the first input of the campaign) is seen again in between: still refused
+                ops.append(["filter", rng.choice([victim, pre + str(start) + post])])
+                if rng.random() < 0.5:
+                    ops.append(rng.choice([["tick", 121], ["clear"], ["filter", benign(rng, 2)]]))
+            ops.append(["burst", pre, post, at, n])
+            at += n
+        if not lean and rng.random() < 0.4:      # part of the campaign is submitted again: replay blocks inside a burst
+            ops.append(["burst", pre, post, start + rng.choice([0, 0, total // 2]), min(total, rng.choice([2, 20]))])
+        if relax in ("forget", "forget+thr"):
+            ops.append(["forget", pat])
+        if relax in ("thr", "forget+thr"):
+            ops.append(["thr", min(3, lvl + 1)])
+        if relax == "import-weaker":
+            ops.append(["import", [{**g, "id": 181, "level": 0}]])
+        ops.append(["filter", victim])
+        ops.append(["filter", pre + str(start) + post])            # the first input of the campaign
+        ops.append(["filter", pre + str(at - 1) + post])               # ... and the last
+        ops.append(["filter", pre + str(at) + post])                   # a fresh one: judged by the relaxed rules
+        ops.append(["filter", victim])
+        return case
+
+    def _gen_flood(self, rng, k):
+        """medium campaigns (all built-in signatures, decorated like every other history), sizes around powers of two and
+        of ten; now and then a burst of inputs that are NOT blocked comes first"""
+        total = rng.choice([1, 9, 64, 65, 100, 129, 256, 257, 300, 513, 700, 1000, 1025])
+        case = self._flood_mem(rng, total, self.FLOOD_RELAX[k % len(self.FLOOD_RELAX)], parts=rng.choice([1, 1, 2, 3]))
+        if rng.random() < 0.3:
+            case["ops"].insert(1, ["burst", "memo ", rng.choice(["", " thanks"]), 0, rng.choice([3, 40])])
+        return case
+
+    # -- JSON documents for JSONValidator ------------------------------------------------------
+    # strings that are awkward for anything that reads the TEXT of a document instead of its parse: a trailing
+    # (escaped) backslash, escaped quotes, brackets and braces inside strings, \uXXXX escapes, as values and as keys
+    JSON_STRS = ["a", "", "C:\\temp\\", "\\", "say \"hi\"", "[[[[", "]]]]", "{\"a\": [", "}{", "back\\\\", "x\\\"",
+                 "tab\there", "\u4e2d", "\u20ac", "end\\", "\"", "[\\", "\\]", "ignore previous", "null"]
+    JSON_ATOMS = [1, 0, -2.5, True, None, "s"]
+
+    def _json_doc(self, rng, depth, hazard=None):
+        """a JSON text whose nesting depth is exactly `depth` (>= 0), with awkward strings/keys placed before and after
+        the deepest branch; <= MAX_COQ_LEN code points"""
+        def s_():
+            return rng.choice(self.JSON_STRS)
+
+        def atom():
+            return s_() if rng.random() < 0.6 else rng.choice(self.JSON_ATOMS)
+        for attempt in range(6):
+            node = atom() if depth == 0 else None
+            for lvl in range(depth):                        # built from the inside out
+                inner = node
+                sibs_before = [atom() for _ in range(rng.choice([0, 0, 1]) if attempt < 4 else 0)]
+                sibs_after = [atom() for _ in range(rng.choice([0, 0, 1]) if attempt < 4 else 0)]
+                if lvl == depth - 1 and hazard is not None:
+                    sibs_before = [hazard]
+                if rng.random() < 0.35:
+                    d = {}
+                    for a in sibs_before:
+                        d[s_() + str(len(d))] = a
+                    if inner is not None:
+                        d[(hazard if (hazard is not None and lvl == depth - 1 and rng.random() < 0.5) else s_())] = inner
+                    for a in sibs_after:
+                        d[s_() + str(len(d))] = a
+                    node = d
+                else:
+                    node = sibs_before + ([inner] if inner is not None else []) + sibs_after
+            text = json.dumps(node, ensure_ascii=rng.random() < 0.5,
+                              separators=rng.choice([(",", ":"), (", ", ": "), (" , ", " : ")]))
+            if len(text) <= MAX_COQ_LEN and nesting_depth(json.loads(text)) == depth:
+                return text
+        return "[" * depth + "]" * depth if depth else "0"
+
+    def _json_family(self, rng, md):
+        """JSONValidator(max_depth=md): documents at, below and beyond the limit, each awkward string placed (as a value
+        or as a key) right before the over-deep part"""
+        vals = rng.choice([[["json", md, 100000]], [["len", 0, 100000], ["json", md, 100000]],
+                           [["json", md, 100000], ["char", False, False]]])
+        case = {"kind": "inn", "scenario": "json-depth", "builtin": list(range(len(self._shipped()[1]))), "custom": [],
+                "validators": vals, "threshold": 3, "decay": 15, "t0": 0, "ops": []}
+        for hz in rng.sample(self.JSON_STRS, 6):
+            case["ops"].append(["check", self._json_doc(rng, md + rng.choice([1, 1, 2, 5]), hazard=hz)])
+            if rng.random() < 0.5:
+                case["ops"].append(["check", self._json_doc(rng, max(0, md - rng.choice([0, 0, 1])), hazard=hz)])
+        return case
+
     # -- colonies: several membranes, export/import of the very objects ------------------
+    FLOOD_IN_COQ = 10400
+
     ALIAS_VARIANTS = ["relearn-lower", "relearn-higher", "forget", "thr", "relearn-kind", "donor-filter", "chain",
                       "recipient-relearn"]
 
@@ -828,6 +1081,8 @@ class C10(Check):
                     out.append(self._keyclash_mem(rng, how, pat, rx, mode))
                 for how in self.KEYCLASH_SYS:
                     out.append(self._keyclash_sys(rng, how, pat, rx, mode))
+            for md in (0, 1, 2, 3, 5, 10):
+                out.append(self._json_family(rng, md))
         return [self._decorate(c) for c in out if c is not None]
 
     def _gen_mem(self, rng):
@@ -961,7 +1216,12 @@ class C10(Check):
             r = rng.random()
             if r < 0.62:
                 k = rng.random()
-                if k < 0.15 or (k < 0.5 and any(v[0] == "json" for v in vals)):
+                jv = [v for v in vals if v[0] == "json"]
+                if jv and k < 0.3:
+                    md = rng.choice(jv)[1]
+                    x = self._json_doc(rng, max(0, md + rng.choice([-1, 0, 0, 1, 1, 2, 4])),
+                                       hazard=rng.choice(self.JSON_STRS) if rng.random() < 0.6 else None)
+                elif k < 0.15 or (k < 0.5 and any(v[0] == "json" for v in vals)):
                     x = rng.choice(["[1, 2]", "{\"a\": {\"b\": [1]}}", "[[[[1]]]]", "{", "nope", "\"s\"", "[" * 12 + "]" * 12,
                                     "{\"a\": \"ignore previous\"}", "9" * 30, "[\"\ud800\"]", "", "[]", "{}", "[[]]",
                                     "{\"a\": {}}", "[{}, []]", "[[], [[1]]]", "{\"a\": [], \"b\": {\"c\": {}}}", "[[[]]]"])
@@ -1028,6 +1288,10 @@ class C10(Check):
                 c = self._random_keyclash(rng, k)
                 if c is not None:
                     out.append(c)
+            elif r < 0.15:
+                out.append(self._gen_flood(rng, k))
+            elif r < 0.17:
+                out.append(self._json_family(rng, rng.choice([0, 1, 2, 3, 4, 5, 10])))
             elif r < 0.23:
                 if rng.random() < 0.35:
                     rx = rng.random() < 0.5
@@ -1049,6 +1313,12 @@ class C10(Check):
             else:
                 g = self._sigdesc(rng, 100, innate=rng.random() < 0.3)
                 out.append({"kind": "sig", "sig": g, "contents": self._batch_contents(rng, g, 8)})
+        # one campaign of more than 10 000 distinct blocked inputs, evaluated inside Coq as well (thorough: one per
+        # way of relaxing), last so that it shares its Coq shard with few other cases; larger ones run on the
+        # implementation under the monitor only (extra_checks)
+        relaxes = [self.FLOOD_RELAX[self.seed % 3]] if self.tier == "quick" else self.FLOOD_RELAX[:3]
+        for relax in relaxes:
+            out.append(self._flood_mem(rng, self.FLOOD_IN_COQ, relax, lean=True, pat=("zq-marker", False)))
         return [self._decorate(c) for c in out]
 
     def corpus_cases(self):
@@ -1197,7 +1467,42 @@ class C10(Check):
                     st["audit_ok"] = len(after) == len(before) and all(a is b for a, b in zip(before, after))
                     steps.append(st)
                     continue
-                if kind == "filter":
+                if kind == "burst":
+                    # a counted burst of filter calls on pairwise different inputs; observed in counted form
+                    count = op[4]
+                    f0 = len(fired)
+                    results = []
+
+                    def campaign():
+                        for k in range(count):
+                            x = burst_content(op, k)
+                            n0 = len(limited_log)
+                            r = m.filter(Signal(content=x))
+                            results.append((x, r, limited_log[n0] if len(limited_log) > n0 else None))
+                    try:
+                        common.call_with_watchdog(campaign, 30.0 + count / 200.0)
+                    except common.Hang:
+                        raise
+                    except Exception as e:      # noqa
+                        st["raised"] = (f"{type(e).__name__}: {e} (input #{len(results)} of the burst: "
+                                        f"{burst_content(op, len(results))!r})")
+                        steps.append(st)
+                        obs.append([-3])
+                        break
+                    stats = m.get_statistics()
+                    after = m.get_audit_log()
+                    nb = len(before)
+                    items = [{"content": x, "allowed": bool(r.allowed), "level": r.threat_level.value,
+                              "ids": self._ids(r.matched_signatures, B), "limited": lim, "t": clock.ticks}
+                             for (x, r, lim) in results]
+                    st.update(items=items, cb=len(fired) - f0,
+                              audit_ok=(len(after) == nb + count and all(a is b for a, b in zip(before, after))
+                                        and all(after[nb + k] is results[k][1] for k in range(count))),
+                              audit_hash_ok=all(r.audit_hash == sha16(x) for (x, r, _) in results))
+                    obs.append([-8, count, len(after), stats["total_filtered"], stats["total_blocked"],
+                                stats["learned_patterns"], stats["blocked_hashes"]])
+                    obs.append(rle_flat([[int(it["allowed"]), it["level"], len(it["ids"])] for it in items]))
+                elif kind == "filter":
                     n0 = len(limited_log)
                     f0 = len(fired)
                     try:
@@ -1461,6 +1766,9 @@ class C10(Check):
                         try:
                             valid, err = obj.validate(x)
                             verdicts.append({"shipped": shipped, "valid": bool(valid), "err": bool(err)})
+                            if v[0] == "json":      # the oracle's answer for the model: json.loads itself
+                                pk, pv = json_parse(x)
+                                verdicts[-1]["parse"] = json_shape(pv) if pk == "tree" else None
                         except Exception as e:      # noqa
                             verdicts.append({"shipped": shipped, "raises": f"{type(e).__name__}"})
                     st.update(content=x, verdicts=verdicts)
@@ -1544,21 +1852,25 @@ class C10(Check):
             for op in case["ops"]:
                 o = op[0]
                 if o == "filter":
-                    ops.append(f"OFilter {cstr(op[1])}")
+                    ops.append(f"COp (OFilter {cstr(op[1])})")
+                elif o == "burst":
+                    if op[3] < 0 or op[4] < 0:
+                        raise ValueError("burst of a negative start/count")
+                    ops.append(f"CBurst {cstr(op[1])} {cstr(op[2])} {cz(op[3])} {cnat(op[4])}")
                 elif o == "learn":
-                    ops.append(f"OLearn {self._sig_coq(op[1])}")
+                    ops.append(f"COp (OLearn {self._sig_coq(op[1])})")
                 elif o == "forget":
-                    ops.append(f"OForget {cstr(op[1])}")
+                    ops.append(f"COp (OForget {cstr(op[1])})")
                 elif o == "import":
-                    ops.append(f"OImport {clist([self._sig_coq(d) for d in op[1]])}")
+                    ops.append(f"COp (OImport {clist([self._sig_coq(d) for d in op[1]])})")
                 elif o == "addsig":
-                    ops.append(f"OAddSig {self._sig_coq(op[1])}")
+                    ops.append(f"COp (OAddSig {self._sig_coq(op[1])})")
                 elif o == "thr":
-                    ops.append(f"OSetThreshold {cz(op[1])}")
+                    ops.append(f"COp (OSetThreshold {cz(op[1])})")
                 elif o == "tick":
-                    ops.append(f"OTick {cz(op[1])}")
+                    ops.append(f"COp (OTick {cz(op[1])})")
                 elif o == "clear":
-                    ops.append("OClearAudit")
+                    ops.append("COp OClearAudit")
                 elif o != "peek":         # read-only accessor: not shown to the model
                     raise ValueError(o)
             return ("(CMem (mkMCase %s %s %s %s %s %s %s))" % (
@@ -1567,7 +1879,11 @@ class C10(Check):
         # innate: verdicts come from the recorded run
         obs, trace = self._last_inn(case)
         vd = lambda v: (f"VLen {cz(v[1])} {cz(v[2])}" if v[0] == "len" else
-                        f"VChar {cbool(v[1])} {cbool(v[2])}" if v[0] == "char" else "VOracle")
+                        f"VChar {cbool(v[1])} {cbool(v[2])}" if v[0] == "char" else
+                        f"VJson {cz(v[1])} {cz(v[2])}" if v[0] == "json" else "VOracle")
+
+        def tree(sh):
+            return "JAtom" if sh == 0 else f"({'JArr' if sh[0] == 'a' else 'JObj'} {clist([tree(c) for c in sh[1]])})"
         ops = []
         steps = iter(trace["steps"])
         for op in case["ops"]:
@@ -1576,7 +1892,12 @@ class C10(Check):
             if o == "check":
                 ans = []
                 for v in (st or {}).get("verdicts", []):
-                    ans.append("VRaises" if "raises" in v else f"VRet {cbool(v['valid'])} {cbool(v['err'])}")
+                    if "raises" in v:
+                        ans.append("AV VRaises")
+                    elif "parse" in v:      # JSONValidator: what json.loads did with the content
+                        ans.append("AP PFails" if v["parse"] is None else f"AP (PTree {tree(v['parse'])})")
+                    else:
+                        ans.append(f"AV (VRet {cbool(v['valid'])} {cbool(v['err'])})")
                 ops.append(f"RI (ICheck {cstr(op[1])}) {clist(ans)}")
             elif o == "sib":
                 ops.append("RSibling")
@@ -1634,7 +1955,7 @@ class C10(Check):
                 return Violation("C10/raises", f"Membrane.filter raised {st['raised']}")
             if not st.get("audit_ok", True):
                 return Violation("C10/audit", f"audit trail not appended-to exactly once by {st['op']} (or rewritten)")
-            if st["op"] == "filter" and not st["audit_hash_ok"]:
+            if st["op"] in ("filter", "burst") and not st["audit_hash_ok"]:
                 return Violation("C10/audit", "audit_hash is not the content hash")
         return self._monitor_mem_ordered(case, trace)
 
@@ -1645,6 +1966,12 @@ class C10(Check):
         for op, st in zip(case["ops"], trace["steps"]):
             if op[0] == "tick" and op[1] < 0:
                 monotone = False
+            if op[0] == "burst":          # every decision of the campaign is judged, one by one
+                for it in st["items"]:
+                    v = book.judge(it)
+                    if v is not None:
+                        return v
+                continue
             if op[0] != "filter":
                 book.apply(op)
                 continue
@@ -1696,12 +2023,15 @@ class C10(Check):
         thr = case["threshold"]
         epoch = 0
         blocked = []        # (content, epoch) blocked by a signature at/above the threshold
+        vdescs = list(self._effective_validators(case["validators"]))     # the configured validators, in order
         for op, st in zip(case["ops"], trace["steps"]):
             o = op[0]
             if o == "addpat":
                 d = op[1]
                 pats.append((d["id"], d["pattern"], d["regex"], d["level"]))
                 epoch += 1
+            if o == "addval":
+                vdescs.append(op[1])
             if o != "check":
                 continue
             x = st["content"]
@@ -1727,6 +2057,11 @@ class C10(Check):
                                      f"check allowed {x!r} although pattern(s) {bad} at/above severity {thr} match")
                 if any(v["shipped"] and not v["valid"] for v in vs):
                     return Violation("C10/allowed-despite-validator", f"check allowed {x!r} although a shipped validator rejects it")
+                for vdesc in vdescs:        # the shipped validators as documented, judged on the input itself
+                    why = spec_rejects(vdesc, x) if vdesc[0] in ("len", "char", "json") else None
+                    if why is not None:
+                        return Violation("C10/allowed-despite-validator",
+                                         f"check allowed {x!r} although the configured {vname(vdesc)} must reject it: {why}")
                 for b, e in blocked:
                     if e == epoch and b != x and b.lower() == x.lower():
                         return Violation("C10/case-change-unblocks", f"{b!r} was blocked but its case variant {x!r} is allowed")
@@ -1745,6 +2080,8 @@ class C10(Check):
             return any(trace.get("res", []))
         for st in trace.get("steps", []):
             if st.get("ids") or st.get("limited") or st.get("nerr") or (st["op"] == "filter" and not st.get("allowed", True)):
+                return True
+            if st["op"] == "burst" and any(not it["allowed"] for it in st.get("items", [])):
                 return True
         return False
 
@@ -1779,7 +2116,16 @@ class C10(Check):
                                                "replay-blocked" if st["level"] == 3 and not st["ids"] and not st["allowed"]
                                                else "scanned-" + ("allowed" if st["allowed"] else "blocked")))
             return ks
-        if case.get("scenario") and not case["scenario"].startswith("keyclash:"):
+        if str(case.get("scenario", "")).startswith("flood:"):
+            fs = [st for st in trace.get("steps", []) if st["op"] == "filter" and "allowed" in st]
+            if len(fs) >= 5:
+                ks.append(case["scenario"] + (":victim-still-refused" if not fs[-5]["allowed"] and not fs[-1]["allowed"]
+                                              else ":VICTIM-ADMITTED") + (":fresh-admitted" if fs[-2]["allowed"] else ":fresh-refused"))
+        elif case.get("scenario") == "json-depth":
+            for st in trace.get("steps", []):
+                if st["op"] == "check" and "allowed" in st:
+                    ks.append("json-depth:" + ("allowed" if st["allowed"] else "blocked"))
+        elif case.get("scenario") and not case["scenario"].startswith("keyclash:"):
             key = "filter" if k == "mem" else "check"
             fs = [st for st in trace.get("steps", []) if st["op"] == key and st.get("content") == case["ops"][0][1]
                   and "allowed" in st]
@@ -1788,6 +2134,14 @@ class C10(Check):
                                               else ":first-not-admitted" if not fs[0]["allowed"] else ":STILL-ADMITTED"))
         for st in trace.get("steps", []):
             ks.append("op=" + st["op"])
+            if st["op"] == "burst" and "items" in st:
+                n = len(st["items"])
+                ks.append("burst-size:" + ("0" if n == 0 else "1-99" if n < 100 else "100-999" if n < 1000 else
+                                           "1000-9999" if n < 10000 else "10000+"))
+                if any(it["level"] == 3 and not it["ids"] and not it["allowed"] and not it["limited"] for it in st["items"]):
+                    ks.append("burst:has-replay-blocked")
+                if any(it["allowed"] for it in st["items"]):
+                    ks.append("burst:has-allowed")
             if st["op"] == "filter" and "allowed" in st:
                 if st["limited"]:
                     ks.append("filter:rate-limited")
@@ -1810,7 +2164,9 @@ class C10(Check):
         # hash injectivity on every membrane case (the model's hash is the identity)
         for c in cases:
             if c.get("kind") in ("mem", "sys"):
-                xs = ({op[1] for op in c["ops"] if op[0] == "filter"} if c["kind"] == "mem" else
+                xs = ({op[1] for op in c["ops"] if op[0] == "filter"} |
+                      {burst_content(op, k) for op in c["ops"] if op[0] == "burst" for k in range(op[4])}
+                      if c["kind"] == "mem" else
                       {op[2][1] for op in c["ops"] if op[0] == "m" and op[2][0] == "filter"})
                 if len({sha16(x) for x in xs}) != len(xs):
                     self.notes.append("sha256[:16] collision inside a case (model hash = identity would disagree)")
@@ -1825,10 +2181,22 @@ class C10(Check):
         [["[INST]", 1], ["\n", 1000], ["[/INST]", 1]], [["\udfff ignore all previous \ud800", 1]],
         [["[", 600], ["]", 600]], [["{\"k\": \"", 1], ["\u4e2d", 40000], ["\"}", 1]], [["NaN", 1]], [["-Infinity", 1]],
         [["\x1f", 1]], [["{\"a\": \"IGNORE  ALL\tPrevious\"}", 1]],
+        # valid JSON, nested deeper than the default max_depth=10, after a string / key that ends in an escaped backslash,
+        # contains an escaped quote, or contains brackets
+        [["[\"C:\\\\temp\\\\\", ", 1], ["[", 40], ["1", 1], ["]", 41]],
+        [["{\"dir\\\\\": ", 1], ["[", 12], ["1", 1], ["]", 12], ["}", 1]],
+        [["[\"say \\\"hi\\\"\", ", 1], ["[", 11], ["]", 12]],
+        [["{\"a\": \"\\\\\", \"b\": ", 1], ["{\"c\": ", 11], ["0", 1], ["}", 12]],
+        [["[\"]]]]]]]]]]]]\", ", 1], ["[", 300], ["]", 301]],
+        [["[", 10], ["\"[[[[[[[[\"", 1], ["]", 10]],
     ]
     HOSTILE_THOROUGH = [[["[", 400000]], [["(", 200000]], [["{", 100000]], [["ignore", 1], [" ", 300000], ["previous", 1]],
                         [["\\", 150000]], [["[", 990], ["]", 990]]]
     VALSETS = [None, ["json"], ["json-wide"], ["len", "char", "json"]]
+    _VD = {"json": ["json", 10, 100000], "json-wide": ["json", 10 ** 6, 10 ** 9], "len": ["len", 0, 100000],
+           "char": ["char", False, False]}
+    VALSET_DESCS = {"default": [_VD["len"], _VD["char"]], str(["json"]): [_VD["json"]], str(["json-wide"]): [_VD["json-wide"]],
+                    str(["len", "char", "json"]): [_VD["len"], _VD["char"], _VD["json"]]}
 
     @staticmethod
     def _hostile_content(case):
@@ -1905,6 +2273,13 @@ class C10(Check):
             if rec["allowed"] and (any(l >= 3 for _, l in hits) or rec["rejected"]):
                 return Violation("C10/allowed-despite-signature" if not rec["rejected"] else "C10/allowed-despite-validator",
                                  f"InnateImmunity allowed {short}")
+            if rec["allowed"]:
+                for vd in self.VALSET_DESCS[str(rec["validators"])]:
+                    why = spec_rejects(vd, x)
+                    if why is not None:
+                        return Violation("C10/allowed-despite-validator",
+                                         f"InnateImmunity allowed {x[:80]!r}...[{len(x)} code points] although the configured "
+                                         f"{vname(vd)} must reject it: {why}")
         return None
 
     def extra_checks(self):
@@ -1917,6 +2292,21 @@ class C10(Check):
                 v.case = case
                 self.violations.append(v)
         self.extra_cov["hostile_inputs_impl_and_monitor_only"] = len(recipes)
+        # campaigns beyond what is evaluated inside Coq: 70k (> 2^16) distinct blocked inputs, thorough 150k and 3 ways
+        import random as _random
+        rng = _random.Random(f"C10:flood:{self.seed}")
+        plan = ([(70000, self.FLOOD_RELAX[(self.seed + 1) % 3], 1)] if self.tier == "quick" else
+                [(70000, "forget", 1), (70000, "thr", 2), (150000, "import-weaker", 3)])
+        sizes = []
+        for total, relax, parts in plan:
+            case = self._flood_mem(rng, total, relax, lean=True, parts=parts)
+            obs, trace = self._safe_impl(case)
+            v = self.monitor(case, obs, trace)
+            sizes.append(total)
+            if v is not None:
+                v.case = case
+                self.violations.append(v)
+        self.extra_cov["long_campaigns_impl_and_monitor_only"] = sizes
         self.extra_cov["hostile_inputs_note"] = ("nesting depth 50k+, 100k+ code points, lone surrogates, huge numbers: run through "
                                                  "Membrane.filter (twice) and InnateImmunity.check with 4 validator sets on the "
                                                  "implementation under the monitor; not evaluated inside Coq")
